@@ -624,7 +624,8 @@ LEVEL_TEXT = ('Exploration by runtime monitoring: icontract postconditions attac
               'and to initialize_profile of every built-in gas profile judge each initialisation the workloads (and forward models they '
               'build) perform -- non-negativity, unit column sums, exact fill ratios, trace rows, mean molecular weight, active/inactive '
               'split against the opacity data the world installed through the real cache, profile range per layer -- while the workload '
-              'decides that InvalidChemistryException is raised exactly when the observed traces exceed one. Held = held on the recorded executions.')
+              'decides that InvalidChemistryException is raised exactly when the observed traces exceed one. Held = held on the recorded executions.'
+              ' Results the caller keeps and work arrays it re-uses are followed by an ownership ledger (vmon/own.py).')
 LEVEL_NOTE = ('Trusted: the IUPAC abridged atomic weights typed into vmon/lib_c10.py (self-tested on seven formulas) to 5e-4; '
               'the Parmentier deep abundances quoted in the PowerGas documentation.')
 TECHNIQUE = 'icontract postconditions on initialize_chemistry / Gas.initialize_profile + constructor/addGas taps + independent mass table, over seeded mixtures with real opacity discovery'
